@@ -5,6 +5,7 @@ import (
 	"fmt"
 	"hash/fnv"
 	"os"
+	"runtime/debug"
 	"sort"
 	"strings"
 	"testing"
@@ -170,6 +171,8 @@ func WorkerMain(t *testing.T, bind *Binding) {
 	if err := loadJSON(jobPath, &job); err != nil {
 		t.Fatalf("job: %v", err)
 	}
+	// unbounded recursion must end in a quick fatal error, not in minutes of stack growth
+	debug.SetMaxStack(128 << 20)
 	res := &Result{}
 	func() {
 		defer func() {
@@ -182,6 +185,8 @@ func WorkerMain(t *testing.T, bind *Binding) {
 			runCheck(t, bind, &job, res)
 		case "replay":
 			runReplay(t, bind, &job, res)
+		case "trace":
+			runTrace(t, bind, &job, res)
 		default:
 			res.Error = "unknown mode " + job.Mode
 		}
@@ -354,4 +359,60 @@ func dumpRuns(path string, p *sdl.Program, obs []*model.Obs, vs []model.Violatio
 			"runErr": o.RunErr, "err": o.ErrText, "panic": o.Panic, "stk": o.PanicStk, "steps": o.Steps, "picks": len(o.Picks), "nviol": len(vs)})
 		f.Write(append(b, '\n'))
 	}
+}
+
+// runTrace is the determinism self-test's worker mode: it performs the property's protocol
+// on every program and records one hash per run over everything observed (decisions,
+// events, registry calls, wiring, outcomes) except texts that contain addresses.
+func runTrace(t *testing.T, bind *Binding, job *Job, res *Result) {
+	var progs []*sdl.Program
+	if err := loadJSON(job.Batch, &progs); err != nil {
+		res.Error = "batch: " + err.Error()
+		return
+	}
+	acc := newAcc()
+	var lines []any
+	for _, pi := range job.ProgIdx {
+		p := progs[pi]
+		j2 := *job
+		j2.Property = propertyForFamily(p.Family)
+		recs := Protocol(t, bind, &j2, p, acc)
+		for ri, r := range recs {
+			o := *r.Obs
+			o.ErrText, o.Panic, o.PanicStk = "", fmt.Sprint(o.Panic != ""), ""
+			for i := range o.Cont {
+				if o.Cont[i].Panic != "" {
+					o.Cont[i].Panic = "p"
+				}
+			}
+			for k, l := range o.Lookup {
+				if l.Panic != "" {
+					l.Panic = "p"
+					o.Lookup[k] = l
+				}
+			}
+			b, _ := json.Marshal(o)
+			lines = append(lines, fmt.Sprintf("%s/%d %016x picks=%d events=%d", p.ID, ri, hash64(string(b)), len(o.Picks), len(o.Events)))
+		}
+	}
+	res.Stats = acc.finish()
+	res.Stats.Samples = lines
+}
+
+func propertyForFamily(f string) string {
+	switch f {
+	case "wire":
+		return "C01"
+	case "subst":
+		return "C03"
+	case "life":
+		return "C05"
+	case "config":
+		return "C15"
+	case "embed":
+		return "C11"
+	case "close":
+		return "C14"
+	}
+	return "C01"
 }
